@@ -215,6 +215,7 @@ def register(reg):
                         callee=False))
     register2(reg)
     register3(reg)
+    register4(reg)
 
 
 # _prefix_distance, nearest_unknown -------------------------------------------------------------------------
@@ -393,3 +394,160 @@ def register3(reg):
                                            fresh={"prefix": "unbound"})}))
     reg.add(g, Contract(F + "__init__", ["self"], init_cases, setup=lambda E: {"self": Obj(fog_cls(E), {})},
                         props=("C11",), callee=False))
+
+
+# TrieFrontierCache: __init__, get, add, delete ---------------------------------------------------------------
+# The cache is a dictionary nibble tuple -> (parent node body, segment from the parent to that prefix).  The node body
+# is opaque here (any Python value); a cached value is the pair `Entry(node, segment)`.  What a walk relies on:
+#   * get(p) answers exactly what the last add() that listed p stored, KeyError otherwise;
+#   * add(P, n, segs) makes P + s -> (n, s) for every listed s, forgets P itself (unless P is the root prefix or is
+#     listed again through an empty segment) and leaves every other entry alone;
+#   * every entry's segment is a suffix of its key (so traverse_from(node, segment) ends at the key's prefix when the
+#     node sits at key[:-len(segment)]) -- a representation invariant, assumed on entry and proved on exit, for an
+#     arbitrary key XP.
+from pyvc.sym import EntryS, SPy, to_pyval
+
+listed = z3.Function("cache_listed", SeqI, SeqSeqI, IntS, z3.BoolSort())   # XP = P + segs[i] for some i < j
+lastseg = z3.Function("cache_lastseg", SeqI, SeqSeqI, IntS, SeqI)          # the segment of the last such i
+
+
+def unfold_listed(E, P, segs, j):
+    E.assume(mk_bool(z3.Not(listed(P, segs, z3.IntVal(0)))))
+    hit = z3.Concat(P, segs[j]) == XP
+    E.assume(mk_bool(z3.Implies(j >= 0, listed(P, segs, j + 1) == z3.Or(listed(P, segs, j), hit))))
+    E.assume(mk_bool(z3.Implies(j >= 0, lastseg(P, segs, j + 1) == z3.If(hit, segs[j], lastseg(P, segs, j)))))
+
+
+def cache_cls(E):
+    return objs.cls_of(E, MOD, "TrieFrontierCache")
+
+
+def suffix_inv(d):
+    e = z3.Select(d.val, XP)
+    return z3.Implies(z3.Select(d.has, XP), z3.SuffixOf(EntryS.eseg(e), XP))
+
+
+def mk_cache(E):
+    d = E.fresh_dict("_cache", "tuple", "entry")
+    E.assume(mk_bool(suffix_inv(d)))
+    return Obj(cache_cls(E), {"_cache": d})
+
+
+def cache_of(ctx):
+    d = ctx.self.fields.get("_cache")
+    return d if isinstance(d, DictObj) else None
+
+
+def cget_setup(E):
+    c = mk_cache(E)
+    E.ghost["cache0"] = c.fields["_cache"].snapshot()
+    return {"self": c, "prefix": E.fresh_seq("prefix", "tuple", "int")}
+
+
+def cget_cases(E, ctx):
+    has0, val0 = E.ghost["cache0"]
+    p = ops.seq_term_as(ctx.prefix, "int")
+
+    def ens(r):
+        if not (isinstance(r, tuple) and len(r) == 2):
+            return [("returns-a-pair", False)]
+        e = z3.Select(val0, p)
+        return [("the-cached-node", mk_bool(to_pyval(r[0]) == EntryS.enode(e))),
+                ("the-cached-segment", mk_bool(ops.seq_term_as(r[1], "int") == EntryS.eseg(e))),
+                ("was-cached", mk_bool(z3.Select(has0, p)))]
+    return [Case("hit", when=mk_bool(z3.Select(has0, p)), ensures=ens, modifies=[]),
+            Case("miss", when=mk_bool(z3.Not(z3.Select(has0, p))), raises=KeyError, modifies=[]),
+            Case("malformed-nibbles", raises=ValueError, modifies=[])]
+
+
+def cadd_setup(E):
+    c = mk_cache(E)
+    E.ghost["cache0"] = c.fields["_cache"].snapshot()
+    return {"self": c, "node_prefix_input": E.fresh_seq("node_prefix_input", "tuple", "int"),
+            "trie_node": E.fresh_py("trie_node"), "sub_segments": E.fresh_seq("sub_segments", "tuple", "tuple")}
+
+
+def cadd_state(d, has0, val0, P, node, segs, j):
+    """the cache after the parent's own entry was dropped and the first j segments were entered, at the probe XP"""
+    dropped = z3.And(XP == P, P != z3.Empty(SeqI))
+    L = listed(P, segs, j)
+    return [("entry-present-iff-listed-or-kept", mk_bool(z3.Select(d.has, XP) == z3.Or(L, z3.And(z3.Select(has0, XP), z3.Not(dropped))))),
+            ("listed-entry-is-the-node-with-its-last-listed-segment",
+             mk_bool(z3.Implies(L, z3.Select(d.val, XP) == EntryS.Entry(node, lastseg(P, segs, j))))),
+            ("other-entries-untouched", mk_bool(z3.Implies(z3.Not(L), z3.Select(d.val, XP) == z3.Select(val0, XP)))),
+            ("segment-is-a-suffix-of-its-key", mk_bool(suffix_inv(d)))]
+
+
+def cadd_cases(E, ctx):
+    has0, val0 = E.ghost["cache0"]
+    P = ops.seq_term_as(ctx.node_prefix_input, "int")
+    segs = ops.seq_term(ctx.sub_segments)
+    node = to_pyval(ctx.trie_node)
+    n = z3.Length(segs)
+
+    def post():
+        d = cache_of(ctx)
+        if d is None:
+            return [("has-a-cache-dictionary", False)]
+        return cadd_state(d, has0, val0, P, node, segs, n)
+    d = cache_of(ctx)
+    return [Case("added", returns=lambda: None, post=post, modifies=[d]),
+            # a malformed segment is noticed when the loop reaches it: earlier segments have been entered by then
+            Case("malformed-nibbles", raises=ValueError, modifies=[d])]
+
+
+def cadd_inv(E, fr, i):
+    has0, val0 = E.ghost["cache0"]
+    P = ops.seq_term_as(fr.locals["node_prefix"], "int")
+    segs = ops.seq_term(fr.locals["sub_segments"])
+    node = to_pyval(fr.locals["trie_node"])
+    d = fr.locals["self"].fields["_cache"]
+    it = as_int_term(i)
+    unfold_listed(E, P, segs, it)
+    unfold_listed(E, P, segs, it - 1)
+    return [("prefix-is-the-validated-input", mk_bool(P == ops.seq_term_as(fr.locals["node_prefix_input"], "int")))] + \
+        cadd_state(d, has0, val0, P, node, segs, it)
+
+
+def cdel_setup(E):
+    c = mk_cache(E)
+    E.ghost["cache0"] = c.fields["_cache"].snapshot()
+    return {"self": c, "prefix": E.fresh_seq("prefix", "tuple", "int")}
+
+
+def cdel_cases(E, ctx):
+    has0, val0 = E.ghost["cache0"]
+    p = ops.seq_term_as(ctx.prefix, "int")
+
+    def post():
+        d = cache_of(ctx)
+        if d is None:
+            return [("has-a-cache-dictionary", False)]
+        return [("only-that-entry-is-gone", mk_bool(z3.Select(d.has, XP) == z3.And(z3.Select(has0, XP), XP != p))),
+                ("other-entries-untouched", mk_bool(z3.Implies(XP != p, z3.Select(d.val, XP) == z3.Select(val0, XP)))),
+                ("segment-is-a-suffix-of-its-key", mk_bool(suffix_inv(d)))]
+    d = cache_of(ctx)
+    return [Case("deleted", returns=lambda: None, post=post, modifies=[d]),
+            Case("malformed-nibbles", raises=ValueError, modifies=[])]
+
+
+def cinit_cases(E, ctx):
+    def post():
+        d = cache_of(ctx)
+        if d is None:
+            return [("has-a-cache-dictionary", False)]
+        return [("empty", d.has is None or mk_bool(z3.Not(z3.Select(d.has, XP))))]
+    return [Case("fresh-cache", returns=lambda: None, post=post, modifies=[ctx.self])]
+
+
+def register4(reg):
+    g = "fog"
+    F = MOD + ":TrieFrontierCache."
+    reg.add(g, Contract(F + "__init__", ["self"], cinit_cases, setup=lambda E: {"self": Obj(cache_cls(E), {})},
+                        props=("C09",), callee=False))
+    reg.add(g, Contract(F + "get", ["self", "prefix"], cget_cases, setup=cget_setup, props=("C09",), callee=False))
+    reg.add(g, Contract(F + "delete", ["self", "prefix"], cdel_cases, setup=cdel_setup, props=("C09",), callee=False))
+    reg.add(g, Contract(F + "add", ["self", "node_prefix_input", "trie_node", "sub_segments"], cadd_cases,
+                        setup=cadd_setup, props=("C09",), callee=False,
+                        loops={0: LoopSpec(cadd_inv, havoc=lambda fr: [fr.locals["self"].fields["_cache"]],
+                                           fresh={"segment": "unbound", "new_prefix": "unbound"})}))
